@@ -1,3 +1,4 @@
+import Generated.EcdsaInt
 import Generated.Kernels
 import Generated.NTTables
 import Generated.RWLock
